@@ -709,6 +709,31 @@ func C13(c *core.Ctx) {
 				}
 			}
 		})
+		// every skip of an element by its announced length — also the one in the inner loop
+		// that looks for a map value after its key — is reachable only for an element that
+		// may be skipped: ignoreCritical, or a type above 31 that is even
+		{
+			okGate, nSk := true, 0
+			core.Instrs(fn, func(in ssa.Instruction) {
+				cc, ok := core.IsCall(in, core.CalleeID{Pkg: "std/encoding", Recv: "ParseReader", Name: "Skip"})
+				if !ok {
+					return
+				}
+				_, a := core.CallArgs(cc)
+				if len(a) != 1 || !pairLen[core.StripConv(a[0])] {
+					return
+				}
+				nSk++
+				g1 := core.Gate(fn, []ssa.Instruction{in}, pos(ign), neg(le31))
+				g2 := core.Gate(fn, []ssa.Instruction{in}, pos(ign), neg(odd))
+				if !(g1.OK && g1.PassEdges > 0 && g2.OK && g2.PassEdges > 0) {
+					okGate = false
+				}
+			})
+			if nSk > 0 {
+				c.Decide(okGate, "R13.2", "skip-only-non-critical:"+mk, p.Pos(fn.Pos()), fmt.Sprintf("%d skips by the announced length, each reachable only with ignoreCritical or for a non-critical type", nSk), "the generated parser of "+mk+" skips an element by its announced length on a path on which neither ignoreCritical holds nor the type was found non-critical (> 31 and even): an unrecognised CRITICAL element — e.g. between a map key and its value — is silently accepted")
+			}
+		}
 		c.Decide(okSkip && nEdges > 0, "R13.2", "unknown-element-skipped:"+mk, p.Pos(fn.Pos()), "an accepted unknown element is skipped with reader.Skip(int(l))", "an accepted unknown element is not skipped by its announced length: the bytes of its value are parsed as further elements")
 
 		// ---- R13.3 ordered progress invariant
